@@ -24,6 +24,10 @@ def rankecho(a=None):
     return [a, MPI.COMM_WORLD.Get_rank()]
 
 
+def retnone(a=None):
+    return None
+
+
 def mk_preset(kind, i):
     if kind == "preset":
         def f():
@@ -39,7 +43,7 @@ def mk_preset(kind, i):
 
 def py_fn(desc):
     kind, i = desc
-    return {"echo": echo, "boom": boom, "rankecho": rankecho}.get(kind) or mk_preset(kind, i)
+    return {"echo": echo, "boom": boom, "rankecho": rankecho, "retnone": retnone}.get(kind) or mk_preset(kind, i)
 
 
 def gen_request(rng, marker, parallel=False, allow_badinit=False):
@@ -52,8 +56,8 @@ def gen_request(rng, marker, parallel=False, allow_badinit=False):
         return ("init", (kind, rng.randint(1, 9)))
     if k < 0.36:
         return ("junk",)
-    fn = rng.choice(["echo", "echo", "echo", "boom"] + (["rankecho"] * 3 if parallel else []))
-    names = {"echo": ["a", "b", "c"], "boom": ["a"], "rankecho": ["a"]}[fn]
+    fn = rng.choice(["echo", "echo", "echo", "boom", "retnone"] + (["rankecho"] * 3 if parallel else []))
+    names = {"echo": ["a", "b", "c"], "boom": ["a"], "rankecho": ["a"], "retnone": ["a"]}[fn]
     npos = rng.randint(0, len(names)) if fn == "echo" else rng.randint(0, 1)
     pos = [marker * 10 + j for j in range(npos)]
     rest = names[npos:]
@@ -192,6 +196,11 @@ def oracle_sequence(reqs, reps, exited, n=1):
         if "result" not in rep:
             return "succeeding call answered with %r" % (rep,)
         res = rep["result"]
+        if fn == "retnone":
+            want = [None] * n if n > 1 else None
+            if res != want:
+                return "call returning None on every rank answered with %r, expected %r" % (res, want)
+            continue
         if n > 1:
             if not isinstance(res, list) or len(res) != n:
                 return "multi-rank reply is not a list of %d values: %r" % (n, res)
